@@ -34,6 +34,15 @@ points (rtol 1e-12).  One case = one (identifier, role, back end).  The fresh-na
 the case is skipped.  Non-trivial: every case; distinct by (identifier, role, back end, model)."""
 
 
+def _same(got, want, rtol, atol=1e-12) -> bool:
+    """two generated modules are compared with each other: NaN where the renamed model gives NaN is the same behaviour"""
+    if got is None:
+        return False
+    if math.isnan(float(want)):
+        return math.isnan(float(got))
+    return cm.close(got, want, rtol, atol)
+
+
 def cases(tier, seed, focus):
     k = 0
     for i, nm in enumerate(NAMES):
@@ -122,8 +131,8 @@ def check(case):
                     continue
                 ib, iv = b.init_states(), v.init_states()
                 pb, pv = b.init_params(), v.init_params()
-                badi = {ren(k): iv.get(ren(k)) for k in ib if not cm.close(iv.get(ren(k), math.nan), ib[k], 1e-12)}
-                badi.update({ren(k): pv.get(ren(k)) for k in pb if not cm.close(pv.get(ren(k), math.nan), pb[k], 1e-12)})
+                badi = {ren(k): iv.get(ren(k)) for k in ib if not _same(iv.get(ren(k)), ib[k], 1e-12)}
+                badi.update({ren(k): pv.get(ren(k)) for k in pb if not _same(pv.get(ren(k)), pb[k], 1e-12)})
                 if badi:
                     add("silently-wrong", f"{role} named {nm!r}: init values differ from the renamed model", None, badi, "init")
                     continue
@@ -146,7 +155,7 @@ def check(case):
                         add("call-raises", f"{role} named {nm!r}: {fn} raises {cm.exc_name(e.exc)} (renamed model works)", "values", cm.exc_name(e.exc), str(e))
                         done = True
                         break
-                    bad = {ren(k): got.get(ren(k)) for k in want if not cm.close(got.get(ren(k), math.nan), want[k], 1e-12, 1e-300)}
+                    bad = {ren(k): got.get(ren(k)) for k in want if not _same(got.get(ren(k)), want[k], 1e-12, 1e-300)}
                     if bad:
                         add("silently-wrong", f"{role} named {nm!r}: {fn} differs from the same model with the name {FRESH}", {ren(k): want[k] for k in want if ren(k) in bad}, bad, f"{fn} dt={dt} point={vpt}")
                         done = True
